@@ -501,6 +501,9 @@ func c04Program(c *Ctx, b *Batch, pkg string, cs c04Case, src string, per int) {
 				continue
 			}
 			varsText, _ := res["vars"].(string)
+			if cs.Cfg.Optional != "generic" {
+				codecVarsCompare(c, g.decls, inputName, args, varsText, one)
+			}
 			var vars map[string]any
 			if err := json.Unmarshal([]byte(varsText), &vars); err != nil {
 				fail("violation", "variables-not-an-object", "variables: "+varsText, nil, nil)
